@@ -15,6 +15,11 @@ Section Equal.
   Fixpoint acc_items (ups : list (Item * Q)) : list Item :=
     match ups with [] => [] | (it, w) :: r => if accepted w then it :: acc_items r else acc_items r end.
 
+  Lemma accepted_true w : accepted w = true -> 0 < w.
+  Proof. unfold accepted. destruct (qleb_spec w 0); cbn [negb]; [discriminate|auto]. Qed.
+  Lemma accepted_false w : accepted w = false -> w <= 0.
+  Proof. unfold accepted. destruct (qleb_spec w 0); cbn [negb]; [auto|discriminate]. Qed.
+
   Lemma downsample_ge1 theta (sm : qsample) (s : qcs) : 1 <= theta -> downsample QOps Item theta sm s = (sm, s).
   Proof. intro H. unfold downsample. qs. destruct (qleb_spec 1 theta); [reflexivity|lra]. Qed.
 
@@ -116,14 +121,17 @@ Section Equal.
     intros Hk Hw0. induction ups as [|[it w] ups IH]; intros pre sk s HF Hlen I; cbn [run_updates acc_items].
     - exists sk. rewrite app_nil_r. auto.
     - inversion HF as [|u l Hu HF']; subst. cbn [snd] in Hu.
-      destruct (accepted_spec w) as [Hw|Hw].
-      + cbn [length] in Hlen.
+      cbn [acc_items] in Hlen. revert Hlen Hu.
+      destruct (accepted w) eqn:Ea; intros Hlen Hu.
+      + assert (Hw : 0 < w) by (now apply accepted_true).
+        cbn [length] in Hlen.
         destruct (update_equal k w0 pre sk it w s Hk Hw0 (Hu eq_refl)) as (sk1 & EU & I1); auto; [lia|].
         rewrite EU.
         destruct (IH (pre ++ [it]) sk1 s HF') as (sk' & ER & I'); auto.
         * rewrite app_length. cbn [length]. lia.
         * exists sk'. split; auto. now rewrite <- app_assoc in I'.
-      + pose proof (update_nonpos Item sk it w s Hw) as EU.
+      + assert (Hw : w <= 0) by (now apply accepted_false).
+        pose proof (update_nonpos Item sk it w s Hw) as EU.
         destruct (update QOps Item sk it w s) as [[sk1 s1]|]; [inversion EU; subst|]; apply IH; auto.
   Qed.
 
@@ -131,8 +139,8 @@ Section Equal.
   Proof.
     intro H. unfold EqInv, sketch_empty, sample_empty; cbn [sk_k sk_n sk_cw sk_wmax sk_rho sk_smp sc sdata spart length]; qs.
     splits; auto; try reflexivity; try lra.
-    - cbn. lra.
-    - intro E; congruence.
+    all: try (intro E; congruence).
+    all: try (cbn [Z.of_nat]; change (inject_Z 0) with 0; rewrite Qmult_0_l; reflexivity).
   Qed.
 
   (* equal weights, n <= k: the sample is exactly the input, c = n, no partial item, and no random draw was used *)
